@@ -25,19 +25,21 @@ PINS = Path(__file__).resolve().parent.parent.parent / "corpus" / "c06_pins.json
 FOREIGN_RULE = {"sonar": "python:S99999", "semgrep": "python.lang.security.some-other-rule", "defectdojo": "python.some.other.rule-title"}
 
 
-def _shift(obj, delta: int, old_file: str, new_file: str):
+def _shift(obj, delta: int, old_file: str, new_file: str, dcol: int = 0):
     if isinstance(obj, dict):
         out = {}
         for k, v in obj.items():
             if k in ("startLine", "endLine", "line") and isinstance(v, int):
                 out[k] = v + delta
+            elif k in ("startColumn", "endColumn", "startOffset", "endOffset") and isinstance(v, int):
+                out[k] = v + dcol
             elif isinstance(v, str) and k in ("component", "uri", "file_path"):
                 out[k] = v[: len(v) - len(old_file)] + new_file if v.endswith(old_file) else v
             else:
-                out[k] = _shift(v, delta, old_file, new_file)
+                out[k] = _shift(v, delta, old_file, new_file, dcol)
         return out
     if isinstance(obj, list):
-        return [_shift(x, delta, old_file, new_file) for x in obj]
+        return [_shift(x, delta, old_file, new_file, dcol) for x in obj]
     return obj
 
 
@@ -95,7 +97,7 @@ class Template:
         for sp in specs:
             for key, e in self.entries:
                 u = next(uid)
-                n = _shift(e, sp["delta"], "code.py", sp["file"])
+                n = _shift(e, sp["delta"], "code.py", sp["file"], sp.get("dcol", 0))
                 if self.tool == "defectdojo":
                     n["id"] = u
                 if self.tool == "sonar":
@@ -167,17 +169,23 @@ def run(chk: Check) -> None:
             t = Template(s, site[0])
         except (ValueError, KeyError, TypeError):
             continue
-        if t.ok() and (s.codemod not in best or len(s.input) < len(best[s.codemod][0].input)):
-            best[s.codemod] = (s, site, t)
+        if t.ok():
+            best.setdefault(s.codemod, []).append((s, site, t))
+    for cid in best:
+        best[cid].sort(key=lambda x: (len(x[0].input), x[0].key))
+        best[cid] = best[cid][: chk.pick(1, 4)]
     pins = set(json.loads(PINS.read_text())["codemods"]) if PINS.exists() else set()
     scenarios = []
-    for cid in sorted(best):
-        seed, site, tpl = best[cid]
+    for cid, si, seed, site, tpl in [(c, i, *b) for c in sorted(best) for i, b in enumerate(best[c])]:
         first = site[0]
         layouts = [[first, first + 2, first + 5], [first + 1, first + 2, first + 4]]
-        progs = [p for p in (seeds.multi_site_program(seed, site, lay, mark=True) for lay in layouts) if p]
+        progs = [(p[0], p[1], 0) for p in (seeds.multi_site_program(seed, site, lay, mark=True) for lay in layouts) if p]
         if not progs:
             continue
+        # the same program one block deeper: every site moves one line down and four columns to the right
+        wrapped = "if len(__name__) > 0:\n" + "\n".join(("    " + ln) if ln.strip() else ln for ln in progs[0][0].split("\n"))
+        if seeds.compiles(wrapped) and tpl.tool != "defectdojo":
+            progs.append((wrapped, [ln + 1 for ln in progs[0][1]], 4))
         files, specs, site_lines, exp_sites, site_spans = {}, [], {}, {}, {}
         for k, (sc, must) in enumerate(abstract):
             if sc["kind"] == "status" and tpl.tool != "sonar":
@@ -186,7 +194,7 @@ def run(chk: Check) -> None:
                 # a construct spanning several lines, the finding on an inner line: only for tools that report a line
                 if tpl.tool != "defectdojo":
                     continue
-                ml = _multiline(progs[0][0], progs[0][1])
+                ml = _multiline(progs[0][0], progs[0][1]) if si == 0 else None
                 if ml is None:
                     continue
                 text, starts, inner = ml
@@ -198,7 +206,7 @@ def run(chk: Check) -> None:
                 for i in sorted(sc["reported"]):
                     specs.append({"file": rel, "delta": inner[i - 1] - first, "kind": "real", "site": starts[i - 1]})
                 continue
-            text, lines = progs[k % len(progs)]
+            text, lines, dcol = progs[k % len(progs)]
             rel = f"pkg/code{k}.py" if k % 3 == 0 else f"code{k}.py"
             files[rel] = text + "\n"
             site_lines[rel] = lines
@@ -206,22 +214,22 @@ def run(chk: Check) -> None:
             for i in sorted(sc["reported"]):
                 kind = "real" if sc["kind"] == "subset" else sc["kind"]
                 target = "ghost/nowhere.py" if kind == "ghost" else rel
-                specs.append({"file": target, "delta": lines[i - 1] - first, "kind": kind})
+                specs.append({"file": target, "delta": lines[i - 1] - first, "kind": kind, "dcol": dcol})
         doc, findings = tpl.make(specs)
         opt = option_for(tpl.tool, doc)
         scenarios.append({
-            "id": f"C06-{cid}", "files": files, "resfiles": {"results.json": doc},
+            "id": f"C06-{cid}-{si}", "files": files, "resfiles": {"results.json": doc},
             "steps": [{"argv": ["{dir}", "--output", "{out}", "--codemod-include", cid, opt, "{res}/results.json"],
                        "site_lines": site_lines, "site_spans": site_spans, "site_findings": findings, "expect": {"siteMay": exp_sites, "siteMust": exp_sites}}],
-            "_meta": {"codemod": cid, "tool": tpl.tool, "exp": exp_sites, "site_lines": site_lines},
+            "_meta": {"codemod": cid, "si": si, "tool": tpl.tool, "exp": exp_sites, "site_lines": site_lines},
         })
         # the empty result file
         empty, _ = tpl.make([])
         scenarios.append({
-            "id": f"C06-empty-{cid}", "files": {"code.py": progs[0][0] + "\n"}, "resfiles": {"results.json": empty},
+            "id": f"C06-empty-{cid}-{si}", "files": {"code.py": progs[0][0] + "\n"}, "resfiles": {"results.json": empty},
             "steps": [{"argv": ["{dir}", "--output", "{out}", "--codemod-include", cid, opt, "{res}/results.json"],
                        "site_lines": {"code.py": progs[0][1]}, "site_findings": {}, "expect": {"siteMay": {"code.py": []}, "siteMust": {"code.py": []}}}],
-            "_meta": {"codemod": cid, "tool": tpl.tool, "exp": {"code.py": []}, "site_lines": {"code.py": progs[0][1]}, "empty": True},
+            "_meta": {"codemod": cid, "si": si, "tool": tpl.tool, "exp": {"code.py": []}, "site_lines": {"code.py": progs[0][1]}, "empty": True},
         })
     results = runner.run_many(scenarios)
     # ---- scenario validation / pins: the control file (all sites reported) must be fully fixed
@@ -240,15 +248,18 @@ def run(chk: Check) -> None:
         per_run.append((changed, ev_by_file))
         if not m.get("empty"):
             full = [rel for rel, lines in m["site_lines"].items() if m["exp"][rel] == lines]
-            control_ok[m["codemod"]] = bool(full) and all(
+            control_ok[(m["codemod"], m["si"])] = bool(full) and all(
                 sorted(changed.get(c, ())) == m["site_lines"][c] and ev_by_file.get(c, {}).get("findingsOk", False) for c in full
             )
     if os.environ.get("VERIF_PIN") == "1":
-        ok = sorted(c for c, v in control_ok.items() if v)
+        ok = sorted(c for (c, i), v in control_ok.items() if v and i == 0)
         PINS.write_text(json.dumps({"_doc": "SAST codemods whose three-site program is fixed at every site, with the site's finding on each change entry, when all "
                                     "sites are reported (measured at pin time); C06 judges these, others are discarded", "codemods": ok}, indent=1))
         print(f"pinned {len(ok)} codemods")
-    judged = [i for i, scn in enumerate(scenarios) if scn["_meta"]["codemod"] in pins or control_ok.get(scn["_meta"]["codemod"])]
+    # the shortest seed of a pinned codemod is always judged (a failing control is itself a violation); further seeds
+    # (thorough) only when their own control copy is fully fixed
+    judged = [i for i, scn in enumerate(scenarios)
+              if (scn["_meta"]["si"] == 0 and scn["_meta"]["codemod"] in pins) or control_ok.get((scn["_meta"]["codemod"], scn["_meta"]["si"]))]
     chk.coverage["codemods_with_seed"] = len(best)
     chk.coverage["codemods_judged"] = len({scenarios[i]["_meta"]["codemod"] for i in judged})
     chk.coverage["codemods_discarded"] = sorted(set(best) - {scenarios[i]["_meta"]["codemod"] for i in judged})
@@ -264,7 +275,7 @@ def run(chk: Check) -> None:
         v = [c for c in verdicts[st["trace"]["id"]] if c.startswith(("FileEnd:site", "FileEnd:change-entry", "FileEnd:rewritten-line", "FileEnd:unfixed-finding", "RunEnd:permitted-site", "RunEnd:uncaught", "CodemodEnd:exception"))]
         for rel, lines in m["site_lines"].items():
             chk.count()
-            chk.nontrivial((m["codemod"], tuple(m["exp"][rel]), tuple(lines)))
+            chk.nontrivial((m["codemod"], m["si"], tuple(m["exp"][rel]), tuple(lines)))
         if not v:
             continue
         for rel, lines in m["site_lines"].items():
@@ -280,7 +291,7 @@ def run(chk: Check) -> None:
                 problems.append("unfixed finding never reported")
             if problems:
                 kind = "inner-line" if rel.startswith("multi") else ("control" if want == lines else ("none-reported" if not want else "subset"))
-                chk.violation(f"C06|{m['codemod']}|{kind}|{'+'.join(p.split(' ')[0] for p in problems)}",
+                chk.violation(f"C06|{m['codemod']}|{kind}{'' if m['si'] == 0 else '|seed' + str(m['si'])}|{'+'.join(p.split(' ')[0] for p in problems)}",
                               f"{m['codemod']} ({m['tool']}) {rel}: sites {lines}: {'; '.join(problems)}; {'; '.join(st['notes'][:3])}",
                               {"argv": scn["steps"][0]["argv"], "file": rel, "text": scn["files"][rel], "results": scn["resfiles"]["results.json"], "verdict": v})
     chk.sample({"codemod": scenarios[0]["_meta"]["codemod"], "expected_sites_per_file": scenarios[0]["_meta"]["exp"]})
